@@ -15,7 +15,8 @@ RULE = ('cases = role x state x event x primitive variant x ARTIM-prior x route 
         'after a real role-establishing prefix | state reached by a real history through the '
         'running loop); every one of the 247 cells is evaluated for both roles; non-trivial = the '
         'cell is one of the 123 defined cells; distinct = distinct (role, state, event, variant, '
-        'timer-prior, route)')
+        'timer-prior, route)'
+        '; every cell with bytes of a following PDU in the receive buffer; every writing cell also with a transport failing at the write; Sta13 also reached through AA-1/AA-7/AA-8')
 ASSUMPTIONS = ['R-fsm transcribed from PS3.8 Table 9-10 (123 defined cells, asserted)',
                'observation through current_state, timer._start_time, dul_socket, to_service_user '
                'and the bytes that reached the peer endpoint',
